@@ -224,6 +224,19 @@ func (r *Rig) Shutdown() bool {
 	return r.Hub.WaitUntil(func() bool { return r.B.InflightLocked() == 0 }, Watchdog)
 }
 
+// ForceClose closes the server when a case is being given up (deadlock,
+// watchdog). Close joins the connections' delivery goroutines and may be
+// stuck with them, so it gets its own goroutine and a short grace period;
+// nothing is concluded from how it ends.
+func (r *Rig) ForceClose() {
+	closed := make(chan struct{})
+	go func() { r.Srv.Close(); close(closed) }()
+	select {
+	case <-closed:
+	case <-time.After(200 * time.Millisecond):
+	}
+}
+
 // Stacks returns the stacks of all goroutines that have a go-smtp frame,
 // excluding frames of the client half when it is being driven by the harness
 // goroutine itself (callers filter further).
@@ -663,7 +676,7 @@ func (w *Wire) Finish() ([]byte, bool) {
 		// nothing will ever finish: do not sit through the remaining
 		// watchdogs; the stuck goroutines are remembered as leaked
 		w.Abort()
-		w.R.Srv.Close()
+		w.R.ForceClose()
 		for _, g := range ServerGoroutines() {
 			knownLeaked[goroutineID(g)] = true
 		}
